@@ -5,7 +5,7 @@ CONSTANTS
   MaxTime = 4
   TickSteps = {1, 2}
   MaxClk = 6
-  ExpireCmp = ">="
+  FixOnRefresh = TRUE
 VIEW view
 CONSTRAINT Bounded
 INVARIANTS TypeOK HeapOrdered RootOldest OnePerAddr ClosedIffGone PostSweepExact
